@@ -261,7 +261,7 @@ func checkReportScores(w *W, e *m3.Environmental, c Case) {
 	rep := report.NewEnvironmental(e, report.WithOptionsLanguage(language.English))
 	for _, f := range []struct {
 		name, got string
-		want float64
+		want      float64
 	}{
 		{"BaseScore", rep.BaseScore, e.BaseMetrics().Score()},
 		{"TemporalScore", rep.TemporalScore, e.TemporalMetrics().Score()},
